@@ -96,7 +96,7 @@ class C01(Check):
     assumptions = ["Calibrator and everything below it: real code", "joblib.Parallel replaced by SimParallel (lazy dispatch window 2*n_jobs, "
                    "pickle isolation, seeded completion order); real loky is not exercised", "another PYTHONHASHSEED is covered by the "
                    "fresh-interpreter probe of the runner, not per scenario"]
-    quick = {"runs": 600, "wall": 150, "item_timeout": 300}
+    quick = {"runs": 600, "wall": 300, "item_timeout": 300}
     thorough = {"runs": 20000, "wall": 900, "item_timeout": 180}
 
     def gen(self, rng, tier, i):
